@@ -58,7 +58,7 @@ DEFAULT_PROFILE = {
     'allow_return_in_loop': True, 'allow_param_assign_in_loop': True,
     'allow_break_in_light_loop': True, 'allow_zero_cycle': True,
     'allow_raw_cycle': True, 'allow_matrix_in_routine': True,
-    'max_pop': 6,
+    'max_pop': 6, 'reset_after_get': False,
 }
 
 
@@ -595,7 +595,17 @@ def gen_get(draw, env):
     spec = spec_of(env, name)
     if name[0] == 'var' or (spec and spec.get('kind', 'plain') != 'plain'):
         name = ['str', 'Nope']      # light variables may name any kind
-    return [['get', name]]
+    out = [['get', name]]
+    if env.prof['reset_after_get']:
+        # C12: a get that is abandoned leaves placeholder values behind
+        out += [['setreg', 'hue', int_lit(draw, 0, 360)],
+                ['setreg', 'saturation', int_lit(draw, 0, 100)],
+                ['setreg', 'brightness', int_lit(draw, 0, 100)],
+                ['setreg', 'kelvin', int_lit(draw, 1500, 9000)],
+                ['setreg', 'red', int_lit(draw, 0, 100)],
+                ['setreg', 'green', int_lit(draw, 0, 100)],
+                ['setreg', 'blue', int_lit(draw, 0, 100)]]
+    return out
 
 
 def assignable(env):
